@@ -115,7 +115,7 @@ func markersShow(out string, v string, y string) (bool, string) {
 			}
 			if j > 0 && rest[0] >= '0' && rest[0] <= '9' || j > 0 && rest[0] == 'v' {
 				if rest[:j] != v {
-					return false, l
+					return false, "[value:" + rest[:j] + "] " + l
 				}
 			}
 		}
@@ -126,7 +126,7 @@ func markersShow(out string, v string, y string) (bool, string) {
 				j = len(r2)
 			}
 			if j > 0 && (r2[0] >= '0' && r2[0] <= '9' || r2[0] == 'v') && r2[:j] != v {
-				return false, l
+				return false, "[value:" + r2[:j] + "] " + l
 			}
 		}
 	}
@@ -207,6 +207,7 @@ func suiteCopyright(env *Env, res *Result) {
 	r := NewRng(env.Seed)
 	n := env.N(1500, 40000)
 	var cases []CorrCase
+	var pending []pendingFailure
 	for i := 0; i < n; i++ {
 		text := genConf(r)
 		v := genVersionText(r)
@@ -243,23 +244,48 @@ func suiteCopyright(env *Env, res *Result) {
 			}
 			return base
 		}
+		mainIdx := len(cases) - 1
 		if twice != out {
-			res.addFailure(Failure{Kind: "copyright", Shape: shapeOf("copyright_not_idempotent", out, twice), Input: input,
-				Detail: fmt.Sprintf("repeating -v %s -y %s changes the file: %q -> %q", v, y, clip(out, 300), clip(twice, 300))})
+			cases = append(cases, CorrCase{Fields: []string{"copyright", "gen", hx(v), hx(y), hx(out)}, Impl: "OK\t" + hx(twice), Human: "second application"})
+			pending = append(pending, pendingFailure{f: Failure{Kind: "copyright", Shape: shapeOf("copyright_not_idempotent", out, twice), Input: input,
+				Detail: fmt.Sprintf("repeating -v %s -y %s changes the file: %q -> %q", v, y, clip(out, 300), clip(twice, 300))}, idx: []int{mainIdx, len(cases) - 1}})
 		} else if seq != out {
-			res.addFailure(Failure{Kind: "copyright", Shape: shapeOf("copyright_history_dependent", seq, out), Input: input,
-				Detail: fmt.Sprintf("after an earlier run with -v %s the result differs: %q vs %q", v1, clip(seq, 300), clip(out, 300))})
+			cases = append(cases, CorrCase{Fields: []string{"copyright", "gen", hx(v1), hx(y1), hx(text)}, Impl: "OK\t" + hx(mid), Human: "history step 1"},
+				CorrCase{Fields: []string{"copyright", "gen", hx(v), hx(y), hx(mid)}, Impl: "OK\t" + hx(seq), Human: "history step 2"})
+			pending = append(pending, pendingFailure{f: Failure{Kind: "copyright", Shape: shapeOf("copyright_history_dependent", seq, out), Input: input,
+				Detail: fmt.Sprintf("after an earlier run with -v %s the result differs: %q vs %q", v1, clip(seq, 300), clip(out, 300))}, idx: []int{mainIdx, len(cases) - 2, len(cases) - 1}})
 		}
 		if ok2, line := markersShow(seq, v, y); !ok2 {
 			shape := "copyright_marker_not_updated"
-			if nonsimple && !strings.HasPrefix(line, "[") && !strings.HasPrefix(line, "# OWASP") {
+			if nonsimple && !strings.HasPrefix(line, "[short") && !strings.HasPrefix(line, "[year") && !strings.HasPrefix(line, "# OWASP") {
 				shape += "_nonsimple_version"
 			}
-			res.addFailure(Failure{Kind: "copyright", Shape: shape, Input: input,
-				Detail: fmt.Sprintf("marker line does not show %s / %s: %q", v, y, line)})
+			// the recorded finding is a property of the faithful model: it explains the failure only
+			// if the code did, in both invocations, exactly what the model does (decided below)
+			cases = append(cases, CorrCase{Fields: []string{"copyright", "gen", hx(v1), hx(y1), hx(text)}, Impl: "OK\t" + hx(mid), Human: "history step 1"},
+				CorrCase{Fields: []string{"copyright", "gen", hx(v), hx(y), hx(mid)}, Impl: "OK\t" + hx(seq), Human: "history step 2"})
+			pending = append(pending, pendingFailure{f: Failure{Kind: "copyright", Shape: shape, Input: input,
+				Detail: fmt.Sprintf("marker line does not show %s / %s: %q", v, y, line)}, idx: []int{len(cases) - 2, len(cases) - 1}})
 		}
 	}
-	compareWithModel(env, res, cases)
+	outs := compareWithModel(env, res, cases)
+	for _, pf := range pending {
+		f := pf.f
+		if strings.HasSuffix(f.Shape, "_nonsimple_version") && outs != nil {
+			for _, k := range pf.idx {
+				if outs[k] != cases[k].Impl {
+					f.Shape = strings.TrimSuffix(f.Shape, "_nonsimple_version") // not what the unchanged code does
+					break
+				}
+			}
+		}
+		res.addFailure(f)
+	}
+}
+
+type pendingFailure struct {
+	f   Failure
+	idx []int
 }
 
 func isSimpleVersion(v string) bool {
